@@ -98,6 +98,7 @@ func (C17) Events(env world.Env, mm mc.Model) []string {
 		for _, p := range c17Provers {
 			evs = append(evs, "Proof:"+p+":"+id)
 		}
+		evs = append(evs, "ProofCaps:P3:"+id)
 	}
 	if len(m.Files) > 0 {
 		id := m.Files[0]
@@ -262,9 +263,12 @@ func (C17) Apply(env world.Env, mm mc.Model, ev string) mc.Step {
 		if res.OK() {
 			st.Outcome = "ok"
 		}
-	case "Proof":
+	case "Proof", "ProofCaps":
 		owner, f, start := fileOf(strings.Join(p[2:], "|"))
 		prover := w.A(p[1]).Bech
+		if p[0] == "ProofCaps" { // the prover signs with the capital spelling of its address
+			prover = strings.ToUpper(prover)
+		}
 		c := int64(0)
 		if pr, ok := w.App.StorageKeeper.GetProof(env.Ctx(), prover, f.merkle, owner, start); ok {
 			c = pr.ChunkToProve
